@@ -17,6 +17,8 @@ NOTES = ["proved: parse_tokens_print (all trees in the parser's image), wf_compl
 
 
 def run(ctx, log):
+    # comments of every content (several multi-byte characters, trailing backslashes, quotes, code) change nothing
+    progcheck.run_comments(ctx, log, mode='parse')
     # the same small programs at every size around the widths the implementation encodes things in (closed-form results)
     progcheck.run_scale(ctx, log, ['statements', 'nesting'])
     rng = ctx.rng
@@ -33,6 +35,10 @@ def run(ctx, log):
     trees += extra
     for _ in range(1500 if ctx.quick else 30000):
         trees.append(gensyn.gen_program(rng, d=rng.randint(2, 4)))
+    # names that a language might have reserved: as variable, parameter, function name, op-assignment target
+    for w in ["waar", "onwaar", "true", "false", "nul", "null", "nil", "niets", "en", "of", "niet", "not", "and", "or", "if", "else", "while", "for", "voor", "in", "tot", "doe", "einde", "end", "return", "geef", "break",
+              "continue", "let", "var", "def", "fn", "function", "klasse", "class", "nieuw", "dit", "zelf", "lijst", "tekst", "getal", "andersals", "herhaal", "totdat", "Ja", "Nee", "Als", "Stel", "Functie", "ja_", "alsof", "stelt", "neen"]:
+        trees.append([("let", w, ("int", 1)), ("expr", ("assign", ("id", w), ("infix", "+", ("id", w), ("int", 1)))), ("expr", ("fn", "f_" + w, [w], [("expr", ("id", w))])), ("expr", ("fn", w, ["p"], [("expr", ("id", "p"))])), ("expr", ("call", ("id", w), [("id", w)]))])
     log("%d trees" % len(trees))
     texts, expect, which = [], [], []
     nlay = 3 if ctx.quick else 10
